@@ -75,6 +75,10 @@ func c08build(kind string, r *rand.Rand, variant int) (enc []byte, dec c08decode
 	switch kind {
 	case "message":
 		size := []int{0, 1, 5, 28, 100, 700}[r.IntN(6)]
+		if r.IntN(8) == 0 {
+			// beyond any plausible chunk size of the payload read path
+			size = []int{4096, 65536, 65537, 65536 + 4096, 200000}[r.IntN(5)]
+		}
 		p := make([]byte, size)
 		for i := range p {
 			p[i] = byte(r.IntN(256))
@@ -242,8 +246,16 @@ func (c08) Run(c *core.Case, env *core.Env) {
 			for k := 0; k < 64; k++ {
 				cuts = append(cuts, k, L-1-k)
 			}
-			for k := 0; k < 512; k++ {
+			for k := 0; k < 256; k++ {
 				cuts = append(cuts, r.IntN(L))
+			}
+			// around the offsets where a chunked reader would switch
+			for _, b := range []int{4096, 28 + 4096, 65536, 28 + 65536, 131072, 28 + 131072} {
+				for d := -2; d <= 2; d++ {
+					if b+d > 0 && b+d < L {
+						cuts = append(cuts, b+d)
+					}
+				}
 			}
 			env.Probe("cuts-sampled-not-exhaustive")
 		}
